@@ -1035,6 +1035,7 @@ class _DWorld:
     def join(self, n):
         d = self.disc[n]
         self.alive.add(n)
+        self.left.discard(n)
         # Agent._on_start
         self.step(n, lambda: (d.register_computation(d.discovery_computation.name, n, "addr_" + n),
                               d.register_agent(n, "addr_" + n)), "join %s" % n, "start")
@@ -1151,7 +1152,8 @@ class _DOps:
                             if k == "nocb" or not (st and st["cbs"]):
                                 out.append(("sub_all", x, k))
             for x in w.agents:
-                if x in p.get("late", ()) and x not in w.alive and x not in w.left:
+                # an agent that left may come back under the same name (rejoin): a restarted agent
+                if x not in w.alive and ((x in p.get("late", ()) and x not in w.left) or (p.get("rejoin") and x in w.left)):
                     out.append(("join", x))
                 if x in p.get("leavers", ()) and x in w.alive and x not in w.host.values() \
                         and not any(x in r for r in w.replicas.values()):
@@ -1487,6 +1489,13 @@ def _shapes_discovery(tier):
                sched="random", seeds=3),
           dict(agents=_A3, late=["a3"], leavers=["a3"], subscribers=["a1"], agent_targets=["a3"], comps=[], families=["agent"], n_ops=2,
                sched="explore", kinds=["nocb", "cb"])]
+    # --- an agent that leaves and comes back under the same name while others still follow it by name
+    s += [dict(agents=_A3, leavers=["a2"], rejoin=True, subscribers=["a1"], agent_targets=["a2"], comps=[], families=["agent"], n_ops=4,
+               kinds=["nocb", "cb"]),
+          dict(agents=_A3, leavers=["a2"], rejoin=True, subscribers=["a1", "a3"], agent_targets=["a2"], comps=[], families=["agent"], n_ops=3,
+               kinds=["cb"], init=[["sub", "a1", "agent", "a2", "cb"]], sched="random", seeds=3),
+          dict(agents=_A3, late=["a3"], leavers=["a3"], rejoin=True, subscribers=["a1"], agent_targets=["a3"], comps=[], families=["agent"],
+               all_agents=True, n_ops=4, kinds=["nocb"])]
     # --- replicas (the computation is hosted and followed from the start, as at every call site)
     s += [_ren(dict(agents=_A2, comps=["c1"], families=["replica"], n_ops=4, init=_HOSTED), _NAMES),
           dict(agents=_A2, comps=["c1"], families=["replica"], n_ops=3, init=_HOSTED, sched="random", seeds=3),
